@@ -581,3 +581,53 @@ def const_arg(t, idx):
         return None
     a = t["args"][idx]
     return a.get("k") if "k" in a else None
+
+
+# ---- ESCAPE: address-of-local provenance -------------------------------------------------------
+
+_VIEW_TY = re.compile(r"^(&|\*const |\*mut |usize$|u\d+$|i\d+$|bool$|\(\)$|compio_driver::sys::sys_slice::SysSlice$|"
+                      r"io_uring::types::|core::ptr::non_null::NonNull<|std::os::fd::|core::option::Option<&|"
+                      r"core::option::Option<core::ptr)")
+
+
+def stack_address_roots(fn, local, max_steps=300):
+    """Locals L (with storage of their own: not references / pointers / scalars / pointer-like views) such
+    that the value in `local` may contain the address of L itself (taken with `&L`, `&raw L`, `&L.field`
+    — no deref in the place), possibly laundered through calls (a call's result may point into any of
+    its arguments' referents). Returns list of (L, line)."""
+    cfg = fn.cfg
+    out = []
+    seen = set()
+    work = [local]
+    steps = 0
+    while work and steps < max_steps:
+        l = work.pop()
+        if l in seen:
+            continue
+        seen.add(l)
+        steps += 1
+        for d in cfg.defs.get(l, []):
+            if d[0] == "call":
+                for a in d[2].get("args", []):
+                    p = op_place(a)
+                    if p is not None:
+                        work.append(p["l"])
+            elif d[0] == "assign":
+                r = d[3]["r"]
+                if r["k"] in ("ref", "rawptr"):
+                    p = r["pl"]
+                    if "*" in p["p"]:
+                        work.append(p["l"])          # points into what p.l points to
+                    else:
+                        base_ty = fn.local_ty(p["l"])
+                        is_arg = 1 <= p["l"] <= fn.argc
+                        if not _VIEW_TY.search(base_ty) and not is_arg:
+                            out.append((p["l"], d[3].get("ln", 0)))
+                        elif is_arg and not _VIEW_TY.search(base_ty):
+                            out.append((p["l"], d[3].get("ln", 0)))   # address of a by-value parameter
+                        else:
+                            work.append(p["l"])
+                else:
+                    for p in rvalue_places(r):
+                        work.append(p["l"])
+    return out
